@@ -908,6 +908,17 @@ def quantity_ops_search():
         for un in units:
             for v in vals[:4]:
                 x = q(v, un)
+                if x.si != v * q._units[un] or x.unit != un or q(v).si != v * q._units[q._baseunit] or q(v).unit != q._baseunit:
+                    return {"class": q.__name__, "value": v, "unit": un,
+                            "failure": "construction gives si %r unit %r; value * factor is %r" % (x.si, x.unit, v * q._units[un])}
+                for badargs in ((v, "no-such-unit"), ("12", un), (True, un)):
+                    try:
+                        q(*badargs)
+                        return {"class": q.__name__, "failure": "construction %r was accepted" % (badargs,)}
+                    except ValueError:
+                        pass
+                    except Exception as e:
+                        return {"class": q.__name__, "failure": "construction %r raised %s" % (badargs, type(e).__name__)}
                 for w in vals[1:5]:
                     y = q(w, units[-1])
                     checks = [("+", lambda: x + y, x.si + y.si), ("-", lambda: x - y, x.si - y.si), ("neg", lambda: -x, -x.si),
